@@ -224,11 +224,13 @@ def _candidate_replay(h, case, res, tries=12):
     import z3
     eng = _ENG
     try:
-        eng.solver.set("timeout", 5000)
+        cs = z3.Solver()            # a fresh solver (works for both the incremental and the real-enclosure mode)
+        cs.set("timeout", 5000)
+        cs.add(*eng.pc)
         for i in range(tries):
-            if eng.solver.check() != z3.sat:
+            if cs.check() != z3.sat:
                 break
-            m = eng.solver.model()
+            m = cs.model()
             inputs = eng.extract_inputs(m)
             inputs.update(case)
             nat = native_outcome(h, inputs)
@@ -243,7 +245,7 @@ def _candidate_replay(h, case, res, tries=12):
                     block.append(t != m.eval(t, model_completion=True))
             if not block:
                 break
-            eng.solver.add(z3.Or(*block[:40]))
+            cs.add(z3.Or(*block[:40]))
             # diversify: prefer different low digits
     except BaseException:
         pass
